@@ -514,18 +514,57 @@ package generic
 //@     invariant i: 0 <= i
 //@     decreases len(self.Next) - i
 
-// integer-keyed map lookups, linear search (the hash fast path relies on the probing helpers, which are not under
-// contract: excluded by precondition)
+// map lookups by key. Linear search, or — with StoreChildrenByHash — open-addressing probes over the first N = 2·count
+// child slots, falling back to the linear search on a miss. The probing helpers need 0 < N <= cap(children): an EMPTY
+// map has N == 0 (key % 0), which the callers must not hand down (fix 8467006: `N > 0 &&`).
+// Termination of the probing loops is ASSUMED (the table is never full: Load sizes it at twice the number of keys).
+//@ spec getIntHash
+//@   props C05 C06
+//@   requires tab: next != nil && 0 < N && N <= cap(*next) && window(*next, cap(*next) * int(sizePathNode))
+//@   ensures hit: r0 != nil ==> r0.Path.t == PathIntKey && uint64(r0.Path.l) == key && samerg(r0, *next)
+//@   ensures slot: r0 != nil ==> offset(*next) <= offset(r0) && offset(r0) + int(sizePathNode) <= offset(*next) + cap(*next) * int(sizePathNode)
+//@   loop 1
+//@     invariant h: 0 <= h && h < N
+//@     invariant slot: s != nil && samerg(s, *next) && offset(s) == offset(*next) + h * int(sizePathNode)
+//@     terminates-assumed open addressing over a table that is never full
+
+//@ spec getStrHash
+//@   props C05 C06
+//@   requires tab: next != nil && 0 < N && N <= cap(*next) && window(*next, cap(*next) * int(sizePathNode))
+//@   ensures hit: r0 != nil ==> r0.Path.t == PathStrKey && samerg(r0, *next)
+//@   ensures slot: r0 != nil ==> offset(*next) <= offset(r0) && offset(r0) + int(sizePathNode) <= offset(*next) + cap(*next) * int(sizePathNode)
+//@   loop 1
+//@     invariant h: 0 <= h && h < N
+//@     invariant slot: s != nil && samerg(s, *next) && offset(s) == offset(*next) + h * int(sizePathNode)
+//@     terminates-assumed open addressing over a table that is never full
+
 //@ spec (*PathNode).GetByInt
 //@   props C05 C06
-//@   requires opts: opts != nil && !samerg(opts, self) && !opts.StoreChildrenByHash
+//@   requires opts: opts != nil && !samerg(opts, self)
+//@   requires hashed: opts.StoreChildrenByHash && self.Node.t == thrift.MAP ==> windowif(true, self.Node.v, self.Node.l) && self.Node.l >= 6
 //@   ensures found: r0 != nil && self.Node.t == thrift.MAP && (self.Node.kt == thrift.I08 || self.Node.kt == thrift.I16 || self.Node.kt == thrift.I32 || self.Node.kt == thrift.I64) ==> \
 //@       r0.Path.t == PathIntKey && r0.Path.l == key && samerg(r0, self.Next)
 
 //@ spec (*PathNode).SetByInt
 //@   props C05 C06
-//@   requires opts: opts != nil && !samerg(opts, self) && !samerg(opts, self.Next) && !samerg(self, self.Next) && !samerg(val.v, self.Next) && !opts.StoreChildrenByHash
+//@   requires opts: opts != nil && !samerg(opts, self) && !samerg(opts, self.Next) && !samerg(self, self.Next) && !samerg(val.v, self.Next)
+//@   requires hashed: opts.StoreChildrenByHash && self.Node.t == thrift.MAP ==> windowif(true, self.Node.v, self.Node.l) && self.Node.l >= 6 && !samerg(self.Node.v, self.Next)
 //@   ensures grow: r1 == nil && !r0 ==> len(self.Next) == old(len(self.Next)) + 1 && self.Next[old(len(self.Next))].Path.t == PathIntKey && self.Next[old(len(self.Next))].Path.l == key && \
+//@       self.Next[old(len(self.Next))].Node.t == val.t && same(self.Next[old(len(self.Next))].Node.v, val.v) && self.Next[old(len(self.Next))].Node.l == val.l
+//@   ensures keep: r0 ==> len(self.Next) == old(len(self.Next))
+//@   modifies self.Next, self.Next[0:cap(self.Next)]
+
+//@ spec (*PathNode).GetByStr
+//@   props C05 C06
+//@   requires opts: opts != nil && !samerg(opts, self)
+//@   requires hashed: opts.StoreChildrenByHash && self.Node.t == thrift.MAP ==> windowif(true, self.Node.v, self.Node.l) && self.Node.l >= 6
+//@   ensures found: r0 != nil && self.Node.t == thrift.MAP && self.Node.kt == thrift.STRING ==> r0.Path.t == PathStrKey && samerg(r0, self.Next)
+
+//@ spec (*PathNode).SetByStr
+//@   props C05 C06
+//@   requires opts: opts != nil && !samerg(opts, self) && !samerg(opts, self.Next) && !samerg(self, self.Next) && !samerg(val.v, self.Next)
+//@   requires hashed: opts.StoreChildrenByHash && self.Node.t == thrift.MAP ==> windowif(true, self.Node.v, self.Node.l) && self.Node.l >= 6 && !samerg(self.Node.v, self.Next)
+//@   ensures grow: r1 == nil && !r0 ==> len(self.Next) == old(len(self.Next)) + 1 && self.Next[old(len(self.Next))].Path.t == PathStrKey && \
 //@       self.Next[old(len(self.Next))].Node.t == val.t && same(self.Next[old(len(self.Next))].Node.v, val.v) && self.Next[old(len(self.Next))].Node.l == val.l
 //@   ensures keep: r0 ==> len(self.Next) == old(len(self.Next))
 //@   modifies self.Next, self.Next[0:cap(self.Next)]
